@@ -38,6 +38,14 @@ CHECKS = {
    technique="Go race detector (-race build, GORACE log parsed and de-duplicated) + transcript equality against a sequential reference + canary check of shared slices, over rounds of 2..16 concurrently served sessions with PRNG yields inside resource callbacks",
    text="Rounds of 2..16 goroutines each serve an own session (four driver/backend combinations) over one shared application whose code slices have canary-filled spare capacity; any race report with a library frame, any transcript that differs from the same session served alone, or any modified shared byte is a violation. Evidence reports goroutines, callbacks and cross-session switches observed.",
    note="Covers only the schedules that occurred. Harness-only race reports make the run inconclusive (monitor defect), never a pass."),
+ "C01": dict(engine="render", category="exploration", design="§3 C01",
+   technique="runtime monitor: relation oracle over real renders (render.Page/Menu/Sizer driven directly, and whole applications through Engine.Flush in lock-step with an unlimited run) at adversarially chosen sizes around every natural page length",
+   text="Every generated page configuration is measured without limit and then rendered at every size around its natural length and around the sink-less length, plus a sweep; any successful output longer than the size, any non-sink page that differs from the composed text, any over-long page returned instead of an error and any output written together with an error is a violation. The engine layer serves generated applications in lock-step with and without a limit, sizes taken from the natural lengths of that very history.",
+   note="Trusted: the harness's composition of the page text. A fitting page that fails for a reason other than size is outside the property (counted). Known: exit value appended/only written at session end."),
+ "C02": dict(engine="render", category="exploration", design="§3 C02",
+   technique="runtime monitor: partition/reassembly relation over all pages of one render configuration (marker-delimited sink sections), dense size sweep, plus forward/backward walks through the real engine with the next/previous selectors in both drivers",
+   text="For each configuration (rows incl. empty/leading/consecutive/trailing-empty, MSINK menus, browse labels, error prefix, separators) pages 0..k+1 are rendered at every size from nothing-fits to everything-fits: each page must be static text + section + menu + next/previous exactly as stated, the sections must reassemble to the content, indexes past the end must fail, an offered next must render. The engine layer walks the same content forwards past the end and backwards before the start.",
+   note="Break-position policy is free. Known findings (joinSink arithmetic): empty rows at page starts/content end dropped; next offered for a page that fails the size check."),
 }
 NOT_YET = {}
 ALL = ["C%02d" % i for i in range(1, 21)]
